@@ -112,6 +112,9 @@ class Scope(FortranObj):
     def check_definitions(self, obj_tree) -> list[Diagnostic]:
         """Check for definition errors in scope"""
         fqsn_dict: dict[str, int] = {}
+        # The first declaration of each name: later ones are duplicates even
+        # when they share its line (`integer :: a; integer :: a`)
+        fqsn_first: dict[str, FortranObj] = {}
         errors: list[Diagnostic] = []
         known_types: dict[str, FortranObj] = {}
 
@@ -136,8 +139,10 @@ class Scope(FortranObj):
             if child.FQSN in fqsn_dict:
                 if child_line < fqsn_dict[child.FQSN]:
                     fqsn_dict[child.FQSN] = child_line - 1
+                    fqsn_first[child.FQSN] = child
             else:
                 fqsn_dict[child.FQSN] = child_line - 1
+                fqsn_first[child.FQSN] = child
 
         contains_line = -1
         if self.get_type() in (
@@ -199,7 +204,11 @@ class Scope(FortranObj):
             ):
                 continue
             # Check other variables in current scope
-            if child.FQSN in fqsn_dict and line_number > fqsn_dict[child.FQSN]:
+            if (
+                child.FQSN in fqsn_dict
+                and fqsn_first[child.FQSN] is not child
+                and line_number >= fqsn_dict[child.FQSN]
+            ):
                 new_diag = Diagnostic(
                     line_number,
                     message=f'Variable "{child.name}" declared twice in scope',
